@@ -36,7 +36,7 @@ struct LenpHarness : Harness {
     std::vector<std::string> props() const override { return {"C13"}; }
     std::vector<std::string> probes(const std::string &) const override {
         return {"varint_prefix_1", "varint_prefix_2", "varint_prefix_3plus", "buffer_with_offset_and_free_space", "chunk_list_with_empty_chunk", "chunk_list_active_nonzero",
-                "frame_split_inside_prefix", "destination_one_octet_too_small", "over_maximum_refused", "total_beyond_ssize_max_refused", "second_task_framed_during_a_sink_call", "varint_through_header_wrapper", "source_lends_its_window", "prefix_declares_more_than_any_destination", "unmaterialised_length_accepted", "kind_maximum_accepted", "sink_error_mid_frame", "buffer_n_less_than_rest",
+                "frame_split_inside_prefix", "destination_one_octet_too_small", "over_maximum_refused", "total_beyond_ssize_max_refused", "second_task_framed_during_a_sink_call", "varint_through_header_wrapper", "source_lends_its_window", "prefix_declares_more_than_any_destination", "unmaterialised_length_accepted", "unmaterialised_length_through_buffer", "unmaterialised_length_through_buffer_n", "unmaterialised_length_through_chunks", "kind_maximum_accepted", "sink_error_mid_frame", "buffer_n_less_than_rest",
                 "n_beyond_unread_refused", "fragmented_decode", "append_behind_existing_content", "multi_frame_stream_fragmented", "source_interruption_during_decode"};
     }
     uint64_t runs(const std::string &, const Tier &t) const override { return t.thorough() ? 10000000 : 1200000; }
@@ -92,6 +92,7 @@ struct LenpHarness : Harness {
             o["len"] = (long long)len;
             if (enc && r.chance(1, 10)) {   // lengths that cannot be materialised: the kinds' maxima and their neighbours, accepted and refused
                 o["huge"] = (long long)r.below(24);
+                if (r.chance(1, 2)) { o["hvia"] = (long long)r.range(1, 3); o["hoff"] = (long long)r.below(8); o["hextra"] = (long long)r.below(4); }   // through a buffer, the first n octets of one, a chunk list
                 static const int64_t CAPS[] = {INT64_MAX, INT64_MAX, 1ll << 31, (1ll << 31) - 1, 1ll << 32, 1ll << 30, 1, 3, 0, -EINTR, -EAGAIN};
                 Json caps = Json::arr(); int nc = (int)r.below(6); for (int q = 0; q < nc; ++q) caps.push((long long)CAPS[r.below(11)]);
                 o["hcaps"] = caps;
@@ -256,39 +257,64 @@ struct LenpHarness : Harness {
                     // accepted: the frame is real, only its payload is never looked at
                     COUNT("probe.unmaterialised_length_accepted");
                     if (n == kind_max(k)) COUNT("probe.kind_maximum_accepted");
+                    // the entry point the length goes through: the memory form, or a buffer / the first n octets of a buffer / a chunk list
+                    // designating the same (virtual) octets
+                    const int hvia = (int)(((o.geti("hvia") % 4) + 4) % 4);
+                    const size_t hoff = hvia ? (size_t)(o.geti("hoff") & 7) : 0, hextra = hvia == 2 ? (size_t)(o.geti("hextra") & 3) : 0;
+                    unsigned char *base = huge_base();
+                    if (hvia && !base) { c.ops_done--; c.execs--; return; }
+                    if (hvia && n > (uint64_t)SSIZE_MAX - 16) { c.ops_done--; c.execs--; return; }   // the buffer object itself could not describe it
+                    ByteBuffer hb; hb.data = base; hb.offset = hoff; hb.used = hoff + (size_t)n + hextra; hb.size = hb.used + (size_t)(o.geti("hextra") & 1);
+                    const size_t n1 = hvia == 3 ? (size_t)(n / 3) : 0;   // two adjacent chunks behind one that is skipped and an empty one
+                    ByteBuffer harr[4];
+                    harr[0].data = base; harr[0].size = harr[0].used = 4; harr[0].offset = 0;
+                    harr[1].data = base; harr[1].size = hoff + n1; harr[1].used = hoff + n1; harr[1].offset = hoff;
+                    harr[2].data = base; harr[2].size = 9; harr[2].used = harr[2].offset = 5;
+                    harr[3].data = base + hoff + n1; harr[3].size = (size_t)n - n1 + 1; harr[3].used = (size_t)n - n1; harr[3].offset = 0;
+                    ByteChunks hbc; hbc.chunks = 4; hbc.active = 1; hbc.chunk = harr;
+                    if (hvia) COUNT(hvia == 1 ? "probe.unmaterialised_length_through_buffer" : hvia == 2 ? "probe.unmaterialised_length_through_buffer_n" : "probe.unmaterialised_length_through_chunks");
                     if (ep == "mem_enc") {
                         LengthPrefixBuffer lpb; memset(&lpb, 0xa5, sizeof lpb);
-                        int rc = LENP(memory_encode, &lpb, ptr, (size_t)n);
-                        c.ev(EV_API, 2, (uint64_t)rc, lpb.prefix.used);
+                        LengthPrefixChunks lpc; memset(&lpc, 0xa5, sizeof lpc); lpc.payload = hbc;
+                        int rc = hvia == 0 ? LENP(memory_encode, &lpb, ptr, (size_t)n) : hvia == 1 ? LENP(buffer_encode, &lpb, &hb) : hvia == 2 ? LENP(buffer_encode_n, &lpb, &hb, (size_t)n) : LENP(chunks_use, &lpc);
+                        c.ev(EV_API, 2, (uint64_t)rc, hvia == 3 ? lpc.prefix.used : lpb.prefix.used);
+                        if (hvia == 3) { check_prefix_obj(rc, lpc.prefix, lpc.prefix_, n); return; }
                         if (check_prefix_obj(rc, lpb.prefix, lpb.prefix_, n)) {
-                            if (lpb.payload.data != m.b.data || byte_buffer_rest(&lpb.payload) != n || lpb.payload.offset != 0)
+                            const void *wantp = hvia ? (const void *)(base + hoff) : (const void *)m.b.data;
+                            if (lpb.payload.data + lpb.payload.offset != wantp || byte_buffer_rest(&lpb.payload) != n)
                                 F("payloadobj", "payload object does not designate the %llu octets given", (unsigned long long)n);
+                            if (hvia == 2 && (hb.offset != hoff + (size_t)n || hb.used != hoff + (size_t)n + hextra)) F("advance", "buffer advanced by %zd octets, expected n=%llu", (ssize_t)(hb.offset - hoff), (unsigned long long)n);
                         }
                         if (!m.blk->unchanged_outside(0, 0)) F("constbuf", "payload memory modified");
                         return;
                     }
-                    unsigned char *base = huge_base();
                     if (!base) { c.ops_done--; c.execs--; return; }
+                    auto to_sink = [&](Sink *sk) -> ssize_t {
+                        return hvia == 0 ? LENP(memory_to_sink, sk, base, (size_t)n) : hvia == 1 ? LENP(buffer_to_sink, sk, &hb) : hvia == 2 ? LENP(buffer_to_sink_n, sk, &hb, (size_t)n) : LENP(chunks_to_sink, sk, &hbc);
+                    };
+                    unsigned char *pbase = base + hoff;
                     // (beyond the reserved range the pointers handed to the driver are never dereferenced either: only their arithmetic is checked)
                     if ((uint64_t)n + ref_prefix(k, n).size() > (uint64_t)SSIZE_MAX) {   // the total cannot be reported: refused before anything is emitted
-                        VirtualDrv D0; D0.c = &c; D0.base = base; D0.total = n; D0.accept_small = true;
+                        VirtualDrv D0; D0.c = &c; D0.base = pbase; D0.total = n; D0.accept_small = true;
                         Sink v0; chunk_sink_init(&v0, VirtualDrv::sink_cb, &D0);
-                        ssize_t rc0 = 0; bool fin0 = WITH_BUDGET(c, 64, rc0 = LENP(memory_to_sink, &v0, base, (size_t)n));
+                        ssize_t rc0 = 0; bool fin0 = WITH_BUDGET(c, 64, rc0 = to_sink(&v0));
                         c.ev(EV_API, 1, (uint64_t)rc0, D0.moved);
                         COUNT("probe.total_beyond_ssize_max_refused");
                         if (!fin0 || rc0 != -EINVAL || D0.calls != 0) F("refuse", "prefix plus %llu payload octets exceed SSIZE_MAX: returned %zd after %llu sink calls, expected -EINVAL and nothing emitted", (unsigned long long)n, rc0, (unsigned long long)D0.calls);
+                        if (hvia == 2 && hb.offset != hoff) F("refuse", "buffer marks changed by a refused request");
                         return;
                     }
-                    VirtualDrv D; D.c = &c; D.base = base; D.total = n; D.accept_small = true;
+                    VirtualDrv D; D.c = &c; D.base = pbase; D.total = n; D.accept_small = true;
                     const Json &cj = o.get("hcaps"); for (size_t i = 0; i < cj.size() && i < 16; ++i) D.caps.push_back(cj.ati(i, INT64_MAX));
                     Sink vk; chunk_sink_init(&vk, VirtualDrv::sink_cb, &D);
-                    ssize_t rc = 0; bool fin = WITH_BUDGET(c, D.caps.size() + 32, rc = LENP(memory_to_sink, &vk, base, (size_t)n));
+                    ssize_t rc = 0; bool fin = WITH_BUDGET(c, D.caps.size() + 32, rc = to_sink(&vk));
                     c.ev(EV_API, 1, (uint64_t)rc, D.moved);
                     if (!fin) { F("noprogress", "no return within the step budget (length %llu, %llu moved)", (unsigned long long)n, (unsigned long long)D.moved); return; }
                     Bytes want = ref_prefix(k, n);
                     if (D.small != want || D.small_after_payload) F("octets", "prefix on the line is not the %zu-octet encoding of %llu in front of the payload", want.size(), (unsigned long long)n);
                     if (D.bad_ptr || D.bad_n || D.moved != n) F("octets", "payload on the line is not exactly the %llu designated octets in order (%llu moved)", (unsigned long long)n, (unsigned long long)D.moved);
                     if (rc != (ssize_t)(want.size() + n)) F("total", "returned %zd, expected prefix %zu + payload %llu", rc, want.size(), (unsigned long long)n);
+                    if (hvia == 2 && c.viol.empty() && (hb.offset != hoff + (size_t)n || hb.used != hoff + (size_t)n + hextra)) F("advance", "buffer advanced by %zd octets, expected n=%llu", (ssize_t)(hb.offset - hoff), (unsigned long long)n);
                     return;
                 }
             }
